@@ -32,7 +32,7 @@ class NeighbourInteraction(ObservableBase):
 
     def __init__(self, periodic_bcs=False, c=1):
         self.periodic_bcs = periodic_bcs
-        self.c = c
+        self.c = int(c)  # unsigned numpy integers wrap when negated
 
         self.name = "NeighbourInteraction(periodic_bcs={}, c={})".format(
             self.periodic_bcs, self.c
